@@ -765,6 +765,9 @@ impl Host for SimHost {
         if let Some(&pt) = sh.planned_term.get(&sid) {
             if pt != t && !(io_hit && t == 1) {
                 sh.viol.push(viol("C16", "termination", format!("s{}: command ended with class {} but n2 reports {}", sid, pt, t)));
+                if pt != 0 && t == 0 {
+                    sh.viol.push(viol("C05", "failure-treated-as-success", format!("s{}: the command failed (or could not be run / its depfile could not be read) but n2 treats it as a success: dependents may start, it may be recorded, the exit status may be 0", sid)));
+                }
             }
         }
         if t == 0 {
